@@ -1,28 +1,81 @@
 ---------------------------- MODULE MCMFSLocks ----------------------------
-(* Scenario sets for exhaustive model checking of MFSLocks. *)
+(* Scenario sets for exhaustive model checking of MFSLocks.
+
+   Operation alphabet (see notes/C20.md for the table of exported methods): file operations on f1/f2 (root)
+   and f3 (inside the sub-directory d), descriptor sessions, operations of the ROOT directory, operations of
+   the SUB-directory d (metadata, listing, flushing: child->parent propagation against the parent->child
+   order of the root's listing/flush), Root/ops.go entry points.  The state-changing directory operations
+   (MkdirNew, AddChild, SubAddChild, DirFlush, SubFlush, Mv, MvSub) take part at PROGRAM level: their lock
+   program as recorded alone is interleaved with the others; what they change in the directory is not
+   modelled. *)
 EXTENDS MFSLocks
+
+CONSTANT FdDepth     \* descriptor sessions: every sequence of <= FdDepth modifying/flush calls between Open and Close
 
 S(op, f) == << <<op, f>> >>
 WSess(f)  == << <<"OpenW", f>>, <<"Write", f>>, <<"FdFlush", f>>, <<"Write", f>>, <<"Close", f>> >>
 WnSess(f) == << <<"OpenWn", f>>, <<"Write", f>>, <<"Close", f>> >>
 RSess(f)  == << <<"OpenR", f>>, <<"Read", f>>, <<"Close", f>> >>
+\* the other write APIs, each one after a Flush (descriptor state "flushed")
+WaSess(f) == << <<"OpenW", f>>, <<"WriteAt", f>>, <<"FdFlush", f>>, <<"Trunc", f>>, <<"FdFlush", f>>,
+                <<"WriteAt", f>>, <<"Close", f>> >>
+
+\* every descriptor state sequence: Open(sync | not sync), any sequence of Write / WriteAt / Truncate / Flush
+\* (each call is thereby made in state created, dirty and flushed), Close
+FdCalls == {"Write", "WriteAt", "Trunc", "FdFlush"}
+FdBodies == UNION {[1..k -> FdCalls] : k \in 0..FdDepth}
+FdSess(o, f, b) == << <<o, f>> >> \o [i \in 1..Len(b) |-> <<b[i], f>>] \o << <<"Close", f>> >>
+FdAll(f) == {FdSess(o, f, b) : o \in {"OpenW", "OpenWn"}, b \in FdBodies}
 
 FSeq(f) == <<WSess(f), WnSess(f), RSess(f), S("FileFlush", f), S("FileSync", f), S("Size", f), S("GetNode", f),
             S("Mode", f), S("ModTime", f), S("SetMode", f), S("SetModTime", f)>>
+\* operations of the root directory (and Root / ops.go entry points that go through it)
 DSeq == <<S("List", "f1"), S("ListNames", "f1"), S("Lookup", "f1"), S("Mkdir", "f1"), S("Unlink", "f1"),
-          S("DirGetNode", "f1")>>
-\* f2 only for the sessions that interact across files through the directory
-All == FSeq("f1") \o DSeq \o <<WSess("f2"), RSess("f2"), S("Mode", "f2"), S("SetMode", "f2"), S("FileFlush", "f2")>>
+          S("DirGetNode", "f1"), S("DirFlush", "f1"), S("RootFlush", "f1"), S("RootSetMode", "f1"),
+          S("AddChild", "f1"), S("MkdirNew", "f1"), S("Mv", "f2"), S("MvSub", "f1")>>
+\* operations of the sub-directory d
+SubDSeq == <<S("SubSetMode", "f1"), S("SubSetModTime", "f1"), S("ChmodSub", "f1"), S("TouchSub", "f1"),
+            S("SubMode", "f1"), S("SubModTime", "f1"), S("SubGetNode", "f1"), S("SubFlush", "f1"),
+            S("SubList", "f1"), S("SubListNames", "f1"), S("SubLookup", "f1"), S("SubUnlink", "f1"),
+            S("SubAddChild", "f1")>>
+\* f2 only for the sessions that interact across files through the directory; f3 = the file inside d
+\* (its flushes and metadata updates propagate through d to the root)
+F2Seq == <<WSess("f2"), RSess("f2"), S("Mode", "f2"), S("SetMode", "f2"), S("FileFlush", "f2")>>
+F3Seq == <<WSess("f3"), RSess("f3"), S("Mode", "f3"), S("SetMode", "f3"), S("FileFlush", "f3")>>
+All == FSeq("f1") \o DSeq \o SubDSeq \o F2Seq \o F3Seq
+\* f2 sessions meet the f1, directory and f2 sessions; f3 sessions meet the directory and f3 sessions: files of
+\* different directories share no lock but the ancestors' directory locks, exactly as f1 and f2 do (pairs f1 x f2)
+F1Idx == 1..Len(FSeq("f1"))
+F2Idx == (Len(All) - Len(F3Seq) - Len(F2Seq) + 1)..(Len(All) - Len(F3Seq))
+F3Idx == (Len(All) - Len(F3Seq) + 1)..Len(All)
 \* sessions that can be part of a cycle / lost update (used for 3 and 4 threads)
 Core == <<WSess("f1"), RSess("f1"), S("Mode", "f1"), S("SetMode", "f1"), S("FileFlush", "f1"),
           S("List", "f1"), S("DirGetNode", "f1"), WnSess("f2"), S("ModTime", "f2")>>
 Core4 == <<WSess("f1"), RSess("f1"), S("Mode", "f1"), S("SetModTime", "f1"), S("List", "f1")>>
+\* three locks of three levels (File.nodeLock of f3, lock of d, lock of the root), one thread per level: an
+\* update of f3 going up, an update / flush of d going up, a listing of the root going down
+ScenD == {<<a, b, S("List", "f1")>> : a \in {S("SetMode", "f3"), S("FileFlush", "f3")},
+                                      b \in {S("SubSetMode", "f1"), S("SubFlush", "f1")}}
+
+\* A single-operation session whose program set is contained in that of an earlier single-operation session adds
+\* no behaviour to the model (the operation name occurs nowhere else; fewer program variants = fewer choices):
+\* only the first one of each class takes part in the combinations.  The comparison uses ProgSet, i.e. the
+\* OBSERVED programs when the cfg substitutes them, so an operation whose program changes becomes a class of
+\* its own (e.g. ModTime = Mode = GetNode, SetModTime = SetMode, Lookup = ListNames, RootFlush <= DirGetNode).
+SProg(s) == ProgSet(s[1][1], s[1][2], 1, "none", FALSE, FALSE, <<s[1][1]>>)
+Keep(q) == {i \in 1..Len(q) : ~(Len(q[i]) = 1 /\ \E j \in 1..(i - 1) : Len(q[j]) = 1 /\ SProg(q[i]) \subseteq SProg(q[j]))}
 
 \* threads are interchangeable: unordered combinations suffice
-U2(q) == UNION {{<<q[i], q[j]>> : j \in i..Len(q)} : i \in 1..Len(q)}
-U3(q) == UNION {UNION {{<<q[i], q[j], q[k]>> : k \in j..Len(q)} : j \in i..Len(q)} : i \in 1..Len(q)}
+U2(q) == LET K == Keep(q) IN UNION {{<<q[i], q[j]>> : j \in {k \in K : k >= i /\ ~(i \in F1Idx \cup F2Idx /\ k \in F3Idx)}} : i \in K}
+\* the other write APIs under concurrency (lock-wise WriteAt/Truncate = Write; sequentially: FdScen)
+WaPairs == {<<WaSess("f1"), s>> : s \in {S("SetMode", "f1"), S("List", "f1"), RSess("f1")}}
+U3(q) == LET K == Keep(q) IN
+         UNION {UNION {{<<q[i], q[j], q[k]>> : k \in {m \in K : m >= j}} : j \in {m \in K : m >= i}} : i \in K}
 U4(q) == UNION {UNION {UNION {{<<q[i], q[j], q[k], q[m]>> : m \in k..Len(q)} : k \in j..Len(q)} : j \in i..Len(q)} : i \in 1..Len(q)}
 
-ScenQuick == U2(All) \cup U3(Core4)
-ScenAll == U2(All) \cup U3(Core) \cup U4(Core4)
+\* one thread: the sequential semantics of every descriptor session (acknowledged write visible)
+FdScen == {<<s>> : s \in FdAll("f1")}
+
+ScenQuick == U2(All) \cup U3(Core4) \cup ScenD \cup FdScen \cup WaPairs
+ScenAll == U2(All) \cup U3(Core) \cup U4(Core4) \cup ScenD \cup FdScen \cup WaPairs
 =============================================================================
